@@ -54,6 +54,36 @@ func findSchemeSwitches(w *World) []schemeSwitch {
 				}
 			}
 			if !isScheme {
+				// a string parameter that every caller fills with a URL scheme
+				if id, ok := unparen(sw.Tag).(*ast.Ident); ok && obj != nil {
+					sig := obj.Type().(*types.Signature)
+					pidx := -1
+					for i := 0; i < sig.Params().Len(); i++ {
+						if sig.Params().At(i) == info.Uses[id] {
+							pidx = i
+						}
+					}
+					if pidx >= 0 {
+						ncall, allScheme := 0, true
+						w.AllFuncDecls(func(p2 *packagesPkg, fd2 *ast.FuncDecl) {
+							inspectCalls(p2.TypesInfo, fd2, func(call *ast.CallExpr, callee *types.Func) {
+								if callee != obj || pidx >= len(call.Args) {
+									return
+								}
+								ncall++
+								f2 := fieldOfSel(p2.TypesInfo, call.Args[pidx])
+								if f2 == nil || f2.Name() != "Scheme" {
+									allScheme = false
+								}
+							})
+						})
+						if ncall > 0 && allScheme {
+							isScheme = true
+						}
+					}
+				}
+			}
+			if !isScheme {
 				return true
 			}
 			ss := schemeSwitch{Fn: obj, Decl: fd, Stmt: sw, Cases: map[string]string{}, Pos: sw.Pos()}
@@ -115,22 +145,22 @@ func constructedType(info *types.Info, cc *ast.CaseClause) string {
 // documented scheme tables, transcribed from README.md (sections "Servers",
 // "Channels", "Client").
 var documentedSchemes = map[string]map[string]string{
-	"server.unmarshalServer": {
+	"role:Server": {
 		"http": "HttpServer", "https": "HttpServer",
 		"tcp": "SocketServer", "tcp+tls": "SocketServer", "unix": "SocketServer", "unix+tls": "SocketServer", "unixpacket": "SocketServer",
 		"udp": "PacketServer", "unixgram": "PacketServer",
 		"stdin": "IoServer", "stdin+tls": "IoServer",
 		"dns+udp": "DnsServer", "dns+tcp": "DnsServer",
 	},
-	"server.unmarshalChannel": {"tcp": "NetworkChannel", "unix": "NetworkChannel", "unixpacket": "NetworkChannel"},
-	"client/upstream.unmarshalUpstream": {
+	"role:Channel": {"tcp": "NetworkChannel", "unix": "NetworkChannel", "unixpacket": "NetworkChannel"},
+	"role:Upstream": {
 		"tcp": "Socket", "tcp+tls": "Socket", "unix": "Socket", "unix+tls": "Socket",
 		"http": "Http", "https": "Http",
 		"stdin": "InputOutput", "stdin+tls": "InputOutput",
 		"udp": "Packet", "unixgram": "Packet",
 		"dns": "Dns",
 	},
-	"(*client/listener.Listeners).UnmarshalFlag": {"tcp": "SocketListener", "unix": "SocketListener", "stdin": "InputOutputListener"},
+	"role:Listener": {"tcp": "SocketListener", "unix": "SocketListener", "stdin": "InputOutputListener"},
 }
 
 func checkC18(w *World, r *Report) {
@@ -145,8 +175,39 @@ func checkC18(w *World, r *Report) {
 
 	sws := findSchemeSwitches(w)
 	byFn := map[string][]schemeSwitch{}
+	roleIfaces := map[string]*types.Interface{
+		"role:Server":   w.Interface("internal/server", "Server"),
+		"role:Channel":  w.Interface("internal/server", "Channel"),
+		"role:Upstream": w.Interface("internal/client/upstream", "Upstream"),
+		"role:Listener": w.Interface("internal/client/listener", "Listener"),
+	}
+	typeByName := func(name string) *types.Named {
+		for _, rel := range []string{"internal/server", "internal/client/upstream", "internal/client/listener"} {
+			if n := w.Named(rel, name); n != nil {
+				return n
+			}
+		}
+		return nil
+	}
+	roleOf := func(s schemeSwitch) string {
+		for _, t := range s.Cases {
+			n := typeByName(t)
+			if n == nil {
+				continue
+			}
+			for role, iface := range roleIfaces {
+				if iface != nil && implementsIface(types.NewPointer(n), iface) {
+					return role
+				}
+			}
+		}
+		return ""
+	}
 	for _, s := range sws {
 		byFn[funcKey(s.Fn)] = append(byFn[funcKey(s.Fn)], s)
+		if role := roleOf(s); role != "" {
+			byFn[role] = append(byFn[role], s)
+		}
 	}
 	tlsTypes := map[string]bool{}
 	for fnKey, doc := range documentedSchemes {
@@ -353,8 +414,10 @@ func c18PlusTls(w *World, r *Report, tlsTypes map[string]bool) {
 			if !ok {
 				return false
 			}
-			_, isC := constBool(st.Val)
-			return isC
+			if _, isC := constBool(st.Val); isC {
+				return true
+			}
+			return isTlsTest(st.Val) // flag := <the +tls test itself>
 		}
 		npaths := 0
 		okp := enumPaths(fn, nil, isBoolSet, nil, func(e pathExit) {
@@ -377,8 +440,11 @@ func c18PlusTls(w *World, r *Report, tlsTypes map[string]bool) {
 			npaths++
 			set := false
 			for _, ev := range e.State.Events {
-				b, _ := constBool(ev.(*ssa.Store).Val)
-				set = b
+				if b, isC := constBool(ev.(*ssa.Store).Val); isC {
+					set = b
+				} else if isTlsTest(ev.(*ssa.Store).Val) {
+					set = true // on this path the test is true
+				}
 			}
 			for ph, sel := range e.State.PhiSel {
 				if bt, ok := ph.Type().Underlying().(*types.Basic); ok && bt.Kind() == types.Bool {
@@ -431,8 +497,8 @@ func c18Addr(w *World, r *Report, byFn map[string][]schemeSwitch) {
 			}
 		}
 	}
-	need("client/upstream.unmarshalUpstream", map[string]bool{"Socket": true, "Packet": true}, false)
-	need("server.unmarshalServer", map[string]bool{"SocketServer": true, "PacketServer": true}, true)
+	need("role:Upstream", map[string]bool{"Socket": true, "Packet": true}, false)
+	need("role:Server", map[string]bool{"SocketServer": true, "PacketServer": true}, true)
 	sort.Strings(missing)
 	r.Check(len(missing) == 0, "R18.2", key, w.Pos(addrSw[0].Pos), fmt.Sprintf("Addr() has a case for each of the socket/packet schemes the dispatchers admit (%d cases)", len(have)),
 		"admitted schemes without an address resolver case (they fall into the generic default and are dialled with the raw scheme): "+strings.Join(missing, ", "))
@@ -442,7 +508,13 @@ func c18Addr(w *World, r *Report, byFn map[string][]schemeSwitch) {
 func c18OneDispatcher(w *World, r *Report, sws []schemeSwitch) {
 	dispatchers := map[*types.Func]bool{}
 	for _, s := range sws {
-		if _, documented := documentedSchemes[funcKey(s.Fn)]; documented {
+		hasRole := false
+		for _, t := range s.Cases {
+			if t != "" {
+				hasRole = true
+			}
+		}
+		if hasRole && funcKey(s.Fn) != "(*util/addr.ProtoAddress).Addr" {
 			dispatchers[s.Fn] = true
 		}
 	}
